@@ -8,7 +8,7 @@ import yaml
 from . import cli, common
 
 
-def spline_params(rng, zlo, zhi, n_sy=None, n_t=None):
+def spline_params(rng, zlo, zhi, n_sy=None, n_t=None, oscillating=False):
     """a spline parameter set whose knots cover [zlo, zhi] (mm)"""
     n_sy = n_sy or rng.randint(4, 8)
     n_t = n_t or rng.randint(2, 6)
@@ -32,6 +32,15 @@ def spline_params(rng, zlo, zhi, n_sy=None, n_t=None):
         f = sym.SplineSpecificYield(list(zk), list(vals))
         if float(np.min(f(np.linspace(zk[0], zk[-1], 400)))) > 0.02:
             break
+    if oscillating:
+        # any parameter values: a cubic through alternating knots undershoots below zero between them
+        # (step-like knot values: the interpolating cubic rings around each step)
+        for _try in range(50):
+            pat = [rng.choice([0.7, 0.7, 0.01]) for _ in zk]
+            vals = [round(v + rng.uniform(0, 0.005), 4) for v in pat]
+            f = sym.SplineSpecificYield(list(zk), list(vals))
+            if float(np.min(f(np.linspace(zlo, zhi, 400)))) < -0.02:
+                break
     return {
         "specific_yield": {"type": "spline", "zeta_knots_mm": zk,
                            "sy_knots": vals},
